@@ -144,7 +144,7 @@ def rule_drain(ctx):
 
 
 def run(ctx):
-    rule_rel(ctx)
-    rule_drain(ctx)
+    ctx.guarded("C12.rel", rule_rel, ctx)
+    ctx.guarded("C12.drain", rule_drain, ctx)
     from . import c12_order
     c12_order.run(ctx)
